@@ -107,6 +107,14 @@ func appMessage(r *rand.Rand, begin string, id string) (*quickfix.Message, strin
 	case 3:
 		m.Body.SetString(58, "free text = with equals")
 		cls = "text"
+	case 4:
+		// a message the application passes on from elsewhere, which already carries an OrigSendingTime (and possibly
+		// the PossDup flag): a replay by this session still gives this session's original SendingTime
+		m.Header.SetString(122, "20200101-00:00:00")
+		if r.Intn(2) == 0 {
+			m.Header.SetString(43, "Y")
+		}
+		cls = "forwarded"
 	}
 	return m, cls
 }
